@@ -6,7 +6,16 @@
    (later candidates and the nodes only they need are never executed; a candidate is tried only after the earlier ones
    failed: the reference tries them in order), arguments are the reference's (never a failure object), the outcome is the
    reference's (a contained failure does not fail the run; all candidates failing gives OneOfDoesNotHaveResultError), no deadlock.
-   FALSE in general (known findings D11, D17). The fragment theorem over OneOfX is not proved. *)
+   Kind G (ALL programs -- any constructs around and inside the candidates, any bodies, collaborators and order oracles --, EVERY
+   schedule incl. cancellation; theorems about the history [st_trace], Proofs/OneOfAll.v):
+     - C10_result_is_the_first_successful_candidate: whenever a result is stored for a one-of, it is either the value stored
+       for one of its candidates, all candidates declared before that one having failed (a node of their sub-pipeline stored
+       a failure) -- or the documented OneOfDoesNotHaveResultError, every candidate having failed;
+     - C10_candidates_are_tried_in_declared_order: the sub-pipeline of a candidate is launched only after every candidate
+       declared before it has failed (so later candidates are not even looked at while an earlier one is undecided);
+     - C10_one_position_at_a_time: every one-of in flight is at one position of its declared candidate list.
+   What these do NOT say: that the winning value is the reference semantics' value, and that nodes shared with other scopes are
+   not executed (both kind E / correspondence). FALSE in general: the full statement (known findings D11, D17). *)
 From MLPE Require Import Engine.Run Spec.Dataflow Proofs.ExecLemmas Explore.StateEq Explore.Erase Explore.Explorer Explore.Safe
      Catalogue.Programs Catalogue.Certified Proofs.CertLemmas.
 
@@ -66,3 +75,48 @@ Proof.
     + discriminate.
 Qed.
 Print Assumptions C10_all_candidates_fail.
+
+(* ---- kind G: all programs, all schedules ------------------------------------------------------------------------------------ *)
+From MLPE Require Import Proofs.Micro Proofs.PlainCore Proofs.OneOfAll.
+
+(* [cands P h]: candidates of the one-of h in declared order; [all_failed P b l]: for every candidate in l some node of its
+   sub-pipeline has stored a failure in the history b; [noresult h] = the stored OneOfDoesNotHaveResultError of h.
+   The history is newest first: in [a ++ o :: b], b is what happened before o. *)
+Theorem C10_result_is_the_first_successful_candidate :
+  forall P st, reachable P st ->
+    forall a b h v, st_trace st = a ++ OSetResult h v :: b ->
+      is_head (b_graph (build (p_decls P) (p_inp P) (p_out P))) h = true ->
+      is_switch (b_graph (build (p_decls P) (p_inp P) (p_out P))) h = false ->
+      (v = noresult h /\ all_failed P b (cands P h)) \/
+      (exists pre c rest, cands P h = pre ++ c :: rest /\ In (OSetResult c v) b /\ all_failed P b pre).
+Proof. exact oneof_result_is_the_first_successful_candidate_all_programs. Qed.
+Print Assumptions C10_result_is_the_first_successful_candidate.
+
+(* [OSpawn t (TNDag s c)]: the launch of the sub-pipeline of candidate c (the only tasks of that name) *)
+Theorem C10_candidates_are_tried_in_declared_order :
+  forall P st, reachable P st ->
+    forall a b t s c, st_trace st = a ++ OSpawn t (TNDag s c) :: b ->
+      exists h pre rest, is_head (b_graph (build (p_decls P) (p_inp P) (p_out P))) h = true /\
+                         cands P h = pre ++ c :: rest /\ all_failed P b pre.
+Proof. exact oneof_candidates_are_tried_in_order_all_programs. Qed.
+Print Assumptions C10_candidates_are_tried_in_declared_order.
+
+(* [oo P tr f]: if f is a position of the one-of loop (about to try the candidates l / waiting for candidate c with rest to go),
+   the declared list is pre ++ l (pre ++ c :: rest) and everything in pre has failed *)
+Theorem C10_one_position_at_a_time :
+  forall P st x f, reachable P st -> In x (st_tasks st) -> In f (estack (t_state x)) -> oo P (st_trace st) f.
+Proof. exact oneof_position_all_programs. Qed.
+Print Assumptions C10_one_position_at_a_time.
+
+(* the conclusions are about events that do occur: a complete run of the catalogue program whose first candidate fails stores a
+   result for the one-of (KOo 3 0), a one-of head that is not a switch with candidates [1; 2], and launches candidate 2 *)
+Example C10_events_occur :
+  let P := cat_oneof_last in
+  let st := run_sched P [AQuiesce; AGate (GBody 0 0); AQuiesce; AGate (GBody 1 0); AQuiesce; AGate (GBody 2 0); AQuiesce; AGate (GBody 3 0); AQuiesce] in
+  is_head (b_graph (build (p_decls P) (p_inp P) (p_out P))) (KOo 3 0) = true /\
+  is_switch (b_graph (build (p_decls P) (p_inp P) (p_out P))) (KOo 3 0) = false /\
+  cands P (KOo 3 0) = [KN 1; KN 2] /\
+  existsb (fun o => match o with OSetResult (KOo 3 0) (VNode 2 _) => true | _ => false end) (st_trace st) = true /\
+  existsb (fun o => match o with OSpawn _ (TNDag _ (KN 2)) => true | _ => false end) (st_trace st) = true /\
+  existsb (fun o => match o with OSetResult (KN 1) (VExn _) => true | _ => false end) (st_trace st) = true.
+Proof. vm_compute. repeat split; reflexivity. Qed.
